@@ -80,7 +80,7 @@ PROPERTIES = {
                  'coordinates on the grid, the stochastic model is an Ornstein-Uhlenbeck step about the zero-energy bin; for every real position/offset (ideal arithmetic)',
         'assumptions': [A_IDEAL, A_LIB, DROPS, 'random draws are unconstrained reals', 'HDF5File::appendTracks requires every coordinate in [0, N-1] — the range the tracking maps are proved to keep'],
         'uncovered': ['statistical statement that an ensemble keeps mean and width (consequence of the OU step, not machine-checked)',
-                      'IEEE special values in KickMap::applyTo (FokkerPlanckMap::applyTo is covered bit-precisely by the CBMC leaf unit, grid sizes up to 64)'],
+                      'grid sizes above 64 in the bit-precise leaf units of KickMap::applyTo / FokkerPlanckMap::applyTo (CBMC, every IEEE input incl. NaN/inf, sizes up to 64); the VCG covers all sizes in ideal arithmetic'],
         'explanation': 'posts of KickMap::applyTo and FokkerPlanckMap::applyTo for all four tracking models',
         'technique': TECH,
     },
@@ -242,7 +242,7 @@ PROPERTIES = {
         'claim': 'the SIGINT handler writes Display::abort = true and nothing else; main binds SIGINT to it exactly once, before the loop, by a call that keeps it installed (so repeated interrupts are idempotent); with the abort flag modelled as a monotone flag that may become set at every read, the loop can only be left at its head (a step in progress completes), the final-record block then appends exactly one record for the state reached when a file is open, '
                  'all time-indexed datasets have equal length at exit, pending RF records are flushed, a closing message is printed and main returns EXIT_SUCCESS',
         'assumptions': [DROPS, 'signal delivery does not make library calls fail', 'set-up phase before the loop is not covered', 'signal(2) has BSD semantics (glibc): the handler stays installed'],
-        'uncovered': ['signals during set-up', 'HDF5 library behaviour under EINTR', 'identity of earlier records with the uninterrupted run (follows from C12 claim)'],
+        'uncovered': ['signals during set-up beyond the two facts proved (handler installed by the first statement; main never stores anything but true into the flag) — the set-up code is not enumerated statement by statement', 'HDF5 library behaviour under EINTR', 'identity of earlier records with the uninterrupted run (follows from C12 claim)'],
         'explanation': 'posts of the control skeleton at function exit',
         'technique': TECH,
     },
